@@ -1632,7 +1632,7 @@ class VTDataACK(ComplexAckSequence):
     serviceChoice = 23
     sequenceElements = \
         [ Element('allNewDataAccepted', Boolean, 0)
-        , Element('acceptedOctetCount', Unsigned, 1)
+        , Element('acceptedOctetCount', Unsigned, 1, True)
         ]
 
 register_complex_ack_type(VTDataACK)
